@@ -7,6 +7,7 @@ import sys
 
 HERE = os.path.dirname(os.path.dirname(os.path.abspath(__file__)))
 sys.path.insert(0, HERE)
+sys.path.insert(1, os.path.join(HERE, '.deps'))
 ALL = ['C%02d' % i for i in range(1, 20)]
 
 checks = []
